@@ -158,7 +158,7 @@ def run_exp(L, scale, N, mode, upper, zero=False):
 
 def worker(t):
     prog = H.get_program()
-    S.BITS_MODE[:] = ['uf', 128]
+    S.BITS_MODE[:] = ['ladder', 192]        # exact bit-length facts (the pinned code of this property never asks for bits() of a symbolic integer; rewrites might)
     if t['kind'] == 'fixed':
         run = run_fixed(t['L'], t['scale'], t['N'], t['mode'], t['cfg'], t.get('zero', False))
     else:
